@@ -3,6 +3,7 @@
    Values in, values out; the heap is threaded where a helper allocates or mutates.
    The model follows the tree AFTER the repairs recorded in KNOWN_FINDINGS.txt as "fixed:". *)
 From PV Require Import Base.Bytes Base.Escape Tmpl.Value.
+From PV Require Models.Attrs.
 Local Open Scope Z_scope.
 
 (* ---- parameter types (reflect types of the Go parameters) ----------------- *)
@@ -324,96 +325,61 @@ Section WithHeap.
     end.
 
   (* __attr (after the repairs for integer and undefined values) *)
-  Definition rt_attr (k : bytes) (v : val) (e : bool) : res val :=
-    let mk (a : attr) := Ok (VAttrs [a]) in
-    match v with
-    | VBool b | VGoBool b => mk {| a_name := k; a_val := []; a_esc := false; a_bool := Some b |}
-    | VNil | VInvalid => mk {| a_name := k; a_val := []; a_esc := false; a_bool := Some false |}
-    | VAttrs _ | VMod _ => Unmod
-    | _ => do t <- txt v; mk {| a_name := k; a_val := t; a_esc := e; a_bool := None |}
+  (* ---- attributes: the helpers __attr / __attrs are the ones modelled (and proved about) in Models/Attrs.v;
+     here run-time values are translated to that model's values ---------------------------------------- *)
+  Fixpoint to_aobj (fuel : nat) (v : val) : res Attrs.obj :=
+    match fuel with
+    | O => Unmod
+    | S f =>
+      match v with
+      | VStr s | VGoStr s => Ok (Attrs.OStr s)
+      | VNum z | VInt z => if Z.ltb (Z.abs z) ten10 then Ok (Attrs.ONum z) else Unmod
+      | VBool b | VGoBool b => Ok (Attrs.OBool b)
+      | VNil | VInvalid => Ok Attrs.ONil
+      | VArr l =>
+        match hget h l with
+        | Some (OArr items) =>
+          do os <- (fix go (l : list val) : res (list Attrs.obj) :=
+                      match l with
+                      | [] => Ok []
+                      | x :: r => do a <- to_aobj f x; do b <- go r; Ok (a :: b)
+                      end) items;
+          Ok (Attrs.OArr os)
+        | _ => Unmod
+        end
+      | _ => Unmod
+      end
     end.
+  Definition to_gval (v : val) : res Attrs.gval :=
+    match v with
+    | VInvalid => Ok Attrs.GNil
+    | VGoStr s => Ok (Attrs.GStr s)
+    | VInt z => if Z.ltb (Z.abs z) ten10 then Ok (Attrs.GInt z) else Unmod
+    | VGoBool b => Ok (Attrs.GBool b)
+    | _ => do o <- to_aobj 4 v; Ok (Attrs.GObj o)
+    end.
+  Definition of_arec (a : Attrs.attr_rec) : attr :=
+    {| a_name := Attrs.a_name a; a_val := Attrs.a_val a; a_esc := Attrs.a_esc a; a_bool := Attrs.a_bool a |}.
+  Definition to_arec (a : attr) : Attrs.attr_rec :=
+    {| Attrs.a_name := a_name a; Attrs.a_val := a_val a; Attrs.a_esc := a_esc a; Attrs.a_bool := a_bool a |}.
+
+  (* __attr *)
+  Definition rt_attr (k : bytes) (v : val) (e : bool) : res val :=
+    do g <- to_gval v; Ok (VAttrs [of_arec (Attrs.mk_attr k g e)]).
 
   (* __attrs *)
-  Record tmpattr := { ta_esc : bool; ta_val : bytes; ta_bool : option bool }.
-  Definition tmpattr_eqb (a b : tmpattr) : bool :=
-    (* struct equality; the *bool fields are distinct pointers unless both nil *)
-    Bool.eqb (ta_esc a) (ta_esc b) && beqb (ta_val a) (ta_val b) &&
-    match ta_bool a, ta_bool b with None, None => true | _, _ => false end.
-
-  Definition attr_to_tmp (a : attr) : tmpattr :=
-    match a_bool a with
-    | Some b => {| ta_esc := a_esc a;
-                   ta_val := if a_esc a then a_name a else B """" ++ a_name a ++ B """";
-                   ta_bool := Some b |}
-    | None => {| ta_esc := a_esc a; ta_val := a_val a; ta_bool := None |}
-    end.
-
-  Fixpoint attrs_collect (l : list attr) (acc : list (bytes * list tmpattr)) : list (bytes * list tmpattr) :=
-    match l with
-    | [] => acc
-    | a :: r =>
-      let t := attr_to_tmp a in
-      let n := a_name a in
-      let acc' :=
-        match lookup n acc with
-        | Some olds =>
-          if beqb n (B "class") then
-            if existsb (tmpattr_eqb t) olds then acc else insert n (olds ++ [t]) acc
-          else insert n [t] acc
-        | None => acc ++ [(n, [t])]
-        end in
-      attrs_collect r acc'
-    end.
-
-  (* one attribute's value text; None = skip the attribute; Panic on val[0] of an empty unescaped value *)
-  Fixpoint attr_value (is_class : bool) (vals : list tmpattr) (tmp : bytes) : res (option bytes) :=
-    match vals with
-    | [] => Ok (Some tmp)
-    | v :: r =>
-      match ta_bool v with
-      | Some false => if is_class then attr_value is_class r tmp else Ok None
-      | _ =>
-        let tmp1 := match tmp with [] => [] | _ => tmp ++ B " " end in
-        if ta_esc v then attr_value is_class r (tmp1 ++ escape (ta_val v))
-        else match ta_val v with
-             | [] => Panic
-             | c :: rest =>
-               if Ascii.eqb c """" then attr_value is_class r (tmp1 ++ removelast rest)
-               else attr_value is_class r tmp1
-             end
-      end
-    end.
-
-  Fixpoint attrs_render (l : list (bytes * list tmpattr)) : res bytes :=
-    match l with
-    | [] => Ok []
-    | (n, vals) :: r =>
-      let is_class := beqb n (B "class") in
-      do v <- attr_value is_class vals [];
-      do rest <- attrs_render r;
-      match v with
-      | None => Ok rest
-      | Some t0 =>
-        if negb (forallb is_ascii t0) then Unmod else
-        let t := trim_space t0 in
-        match t with
-        | [] => if is_class then Ok rest else Ok (B " " ++ n ++ B "=""""" ++ rest)
-        | _ => Ok (B " " ++ n ++ B "=""" ++ t ++ B """" ++ rest)
-        end
-      end
-    end.
-
   Definition rt_attrs (lists : list val) : res val :=
     let all := fix go (l : list val) : res (list attr) :=
       match l with
       | [] => Ok []
       | VAttrs a :: r => do b <- go r; Ok (a ++ b)
-      | VArr _ :: _ => Unmod
       | _ => Unmod
       end in
     do attrs <- all lists;
-    do t <- attrs_render (attrs_collect attrs []);
-    Ok (VStr t).
+    match Attrs.render_attrs (map to_arec attrs) with
+    | Some t => Ok (VStr t)
+    | None => Panic
+    end.
 
   (* Map.Keys() after the repair: the order list, or the sorted keys (memoised by the caller) *)
   Definition map_keys (items : list (bytes * val)) (order : list bytes) : list bytes :=
@@ -509,7 +475,7 @@ Definition rt_map_params (h : heap) (l : list val) : res (val * heap) :=
   do x <- params_alloc h gs; let '(items, h1) := x in
   let '(loc, h') := alloc h1 (OMap items []) in Ok (VMap loc, h').
 
-(* __and_attrs: Keys() memoises the order on the map *)
+(* __and_attrs: Keys() memoises the order on the map; each entry as Models/Attrs.v's and_attr_one *)
 Definition rt_and_attrs (h : heap) (m : val) : res (val * heap) :=
   match m with
   | VMap l =>
@@ -518,12 +484,8 @@ Definition rt_and_attrs (h : heap) (m : val) : res (val * heap) :=
       let ks := map_keys items order in
       let h' := hset h l (OMap items ks) in
       let one (k : bytes) : res attr :=
-        let v := member_lookup items k in
-        match v with
-        | VAttrs _ | VMod _ => Unmod
-        | VBool b => Ok {| a_name := k; a_val := (if b then B "true" else B "false"); a_esc := true; a_bool := Some b |}
-        | _ => do t <- txt h v; Ok {| a_name := k; a_val := t; a_esc := true; a_bool := None |}
-        end in
+        do o <- to_aobj h 4 (member_lookup items k);
+        Ok (of_arec (Attrs.and_attr_one {| Attrs.m_items := [(k, o)]; Attrs.m_order := [k] |} k)) in
       let all := fix go (l : list bytes) : res (list attr) :=
         match l with [] => Ok [] | k :: r => do a <- one k; do b <- go r; Ok (a :: b) end in
       do attrs <- all ks; Ok (VAttrs attrs, h')
